@@ -19,17 +19,17 @@ MAXLEN = 6000          # longer outputs are unjudged (TLC scans are recursive, o
 FORMATS = ("csv", "xml", "rest", "tar")
 TIERS = {
     # (cost setting, seed, number of solutions); cap = wall-clock seconds per solver
-    "quick": dict(cap=75, runs={"csv": [("test", 0, 25), ("xml-test-plain", 1, 10)],
-                                "xml": [("test", 0, 18), ("std", 1, 8)],
-                                "rest": [("test", 0, 18), ("std", 1, 8)],
-                                "tar": [("test", 0, 10), ("tar-test", 1, 6)]}),
+    "quick": dict(cap=75, runs={"csv": [("test", 0, 40), ("xml-test-plain", 1, 20)],
+                                "xml": [("test", 0, 150), ("xml-test-plain", 1, 90)],
+                                "rest": [("test", 0, 40), ("std", 1, 20)],
+                                "tar": [("test", 0, 20), ("tar-test", 1, 12)]}),
     "thorough": dict(cap=170, runs=None),
 }
 TIERS["thorough"]["runs"] = {f: [(c, s, n) for c in cs for s in (0, 1, 2)] for f, cs, n in (
-    ("csv", ("test", "xml-test-plain", "scriptsize-test"), 80),
-    ("xml", ("test", "std", "xml-test-plain"), 60),
-    ("rest", ("test", "std", "scriptsize-test"), 60),
-    ("tar", ("test", "tar-test", "scriptsize-test"), 40))}
+    ("csv", ("test", "xml-test-plain", "scriptsize-test"), 150),
+    ("xml", ("test", "std", "xml-test-plain"), 200),
+    ("rest", ("test", "std", "scriptsize-test"), 70),
+    ("tar", ("test", "tar-test", "scriptsize-test"), 60))}
 JCFG = "INIT JInit\nNEXT JNext\nINVARIANT Judged\nCHECK_DEADLOCK FALSE\n"
 STAT_NAMES = {"csv": ("csv_records", "csv_columns_of_first_record", None),
               "xml": ("xml_tags", "xml_attributes", "xml_namespace_prefix_uses"),
